@@ -190,5 +190,5 @@ func runSMInner(s *SMScript, th Thr) (nontrivial bool, f *vt.Finding) {
 
 func TestStateMachine(t *testing.T) {
 	shrinkBudget("30s")
-	vt.Run(t, cSM, vt.N(2500, 60000), genSM, runSM)
+	vt.Run(t, cSM, vt.N(4000, 80000), genSM, runSM)
 }
